@@ -731,6 +731,18 @@ func boolLocalDef(f *Func, id *ast.Ident) ast.Expr {
 				}
 				is = next
 			}
+			// a case of a tag-less switch: `switch { case older: ...; case newer: ... }`
+			if sw, isSw := st.(*ast.SwitchStmt); isSw && sw.Tag == nil && sw.Init == nil {
+				for _, cc := range sw.Body.List {
+					if cl, isCl := cc.(*ast.CaseClause); isCl {
+						for _, ce := range cl.List {
+							if ce.Pos() <= id.Pos() && id.End() <= ce.End() {
+								return def
+							}
+						}
+					}
+				}
+			}
 			return nil
 		}
 		for _, o := range mentioned {
